@@ -4,4 +4,5 @@ INVARIANT InvColumnOrder
 INVARIANT InvRowOrder
 INVARIANT InvIntended
 INVARIANT InvLoopRefines
+INVARIANT InvNoMass
 CHECK_DEADLOCK FALSE
